@@ -161,20 +161,25 @@ def generate(seed: int, index: int, tier: str) -> dict:
     script = []
     alpha = gen_scipy.alphabet(scn)
     constraint_first = index % 2 == 1 and method != DE and any(q == "c" for q, _ in alpha)
+    # half of the runs visit the starting point between two probes, the other half go from probe to probe directly:
+    # probes that straddle a narrow band at a large |x| differ by less than 1e-5 relative, and the handed functions
+    # have to be functions of the point they are called with all the same
+    direct = (index // 2) % 2 == 1
     for p in probes:
-        # visit the starting point in between: probes that straddle a narrow band at a large |x| lie closer
-        # together than the plug-in's point tolerance (they would legitimately count as one point, C07)
         if constraint_first:
             # the handed constraint functions are evaluated on their own, the objective is never asked
             first_c = next((q, k) for q, k in alpha if q == "c")
-            script.append({"q": "c", "k": first_c[1], "pt": -1, "pts": [-1]})
+            if not direct:
+                script.append({"q": "c", "k": first_c[1], "pt": -1, "pts": [-1]})
         else:
-            script.append({"q": "f", "k": None, "pt": -1, "pts": [-1]})
+            if not direct:
+                script.append({"q": "f", "k": None, "pt": -1, "pts": [-1]})
             script.append({"q": "f", "k": None, "pt": p, "pts": [p]})
         for q, k in alpha:
             if q != "f" and not (constraint_first and q == "g"):
                 script.append({"q": q, "k": k, "pt": p, "pts": [p]})
     scn["constraint_first"] = constraint_first
+    scn["direct_probes"] = direct
     scn["fake"]["script"] = script
     scn["fake"]["probes"] = probes
     scn["stratum"] = method
